@@ -360,8 +360,8 @@ def run(chk):
     plan = PLAN[pid]
     rng = random.Random(chk.seed * 104729 + int(pid[1:]))
     # 1. design level
-    # (thorough tier: the larger scope is explored breadth-first for at most 25 minutes; every state reached is checked)
-    r = run_tlc('LatticeMC', plan['mc'] + ('_T' if thorough else '') + '.cfg', workers=16, timeout=1500 if thorough else 3000,
+    # (thorough tier: the larger scope is explored breadth-first for at most 10 minutes; every state reached is checked)
+    r = run_tlc('LatticeMC', plan['mc'] + ('_T' if thorough else '') + '.cfg', workers=16, timeout=600 if thorough else 3000,
                 seed=chk.seed + 1, allow_timeout=thorough)
     chk.tlc(r, f"LatticeMC {plan['mc']}: property formula as invariant on the specification (design level)"
                + (' [time limit reached: partial exploration]' if r.timed_out else ''))
